@@ -248,6 +248,15 @@ func apiScenarios() []apiScenario {
 			f.NewBlock("entry").NewRet(e)
 		}, []string{"@p = global i8** getelementptr inbounds ({ [4 x i8*], [2 x i8*] }, { [4 x i8*], [2 x i8*] }* @vt, i32 0, inrange i32 1, i32 1)",
 			"ret i8** getelementptr inbounds ({ [4 x i8*], [2 x i8*] }, { [4 x i8*], [2 x i8*] }* @vt, i32 0, inrange i32 1, i32 1)"}},
+		// a global variable DECLARATION made by the constructor (no initializer, no linkage set): the grammar has no declaration without linkage
+		{"global-declaration-without-linkage", func(m *ir.Module, expect func(value.Value, string)) {
+			g := m.NewGlobal("g", types.I32)
+			expect(g, "i32*")
+			h := m.NewGlobal("h", types.I8Ptr)
+			h.Linkage = enum.LinkageExternWeak
+			f := m.NewFunc("f", types.I32)
+			f.NewBlock("entry").NewRet(f.Blocks[0].NewLoad(types.I32, g))
+		}, []string{"@g = external global i32", "@h = extern_weak global i8*"}},
 		// the address of an UNNAMED block in the initializer of a global variable, which is printed before the function is: the IDs of the blocks
 		// are those the function prints (behind an unnamed parameter and the entry block), on the FIRST print
 		{"blockaddress-unnamed-block-before-function", func(m *ir.Module, expect func(value.Value, string)) {
